@@ -552,6 +552,19 @@ def r30(ctx: Ctx) -> RuleReport:
                                 shape_ok = True
                             uses_replace = any(isinstance(x, ast.Call) and isinstance(x.func, ast.Attribute) and x.func.attr == 'replace'
                                                for x in ast.walk(v))
+                            # `new = varmap.get(ref); if new:` tests the new name for truthiness instead of the key for membership
+                            truthy = None
+                            for f_, pol_ in facts:
+                                if pol_ and f_.isidentifier():
+                                    dv = single_def(ctx, fi, ast.Name(id=f_, ctx=ast.Load()))
+                                    if isinstance(dv, ast.Call) and isinstance(dv.func, ast.Attribute) and dv.func.attr == 'get' and any(
+                                            isinstance(x, ast.Name) and x.id == f_ for x in ast.walk(v)):
+                                        truthy = (f_, norm(dv))
+                            if truthy:
+                                rep.violation(f'{fi.fq}: every reference to a renamed variable is rewritten', fi.loc(n),
+                                              f'the rewrite runs only when `{truthy[0]}` (= {truthy[1]}) is truthy: a generated name can be the empty string '
+                                              f'(format "{{j}}" names the first node ""), and references to that node then keep their old spelling')
+                                continue
                             if uses_replace:
                                 rep.violation(f'{fi.fq}: a reference is rewritten as new name + its own alignment suffix', fi.loc(n),
                                               f'`{norm(n)[:70]}`: str.replace rewrites every occurrence of the old name, including inside '
